@@ -219,11 +219,11 @@ def check_text(decl, text):
         if len(ln) <= 80:
             continue
         # every unit that ends beyond column 80 must be one that can never fit its text column
-        for tok, end in _tokens(ln, len(head) if li == 0 else 0, merge_metavar=True):
-            if end > 80 and len(tok) + 1 <= W:
+        for tok, endcol in _tokens(ln, len(head) if li == 0 else 0, merge_metavar=True):
+            if endcol > 80 and len(tok) + 1 <= W:
                 problems.append(("width:unjustified-long-line:synopsis",
                                  "synopsis line of %d columns: %r ends at column %d although it fits a %d column "
-                                 "text area: %r" % (len(ln), tok, end, W, ln[:140])))
+                                 "text area: %r" % (len(ln), tok, endcol, W, ln[:140])))
                 break
     # --- rest
     rest = lines[end:]
@@ -276,11 +276,11 @@ def check_text(decl, text):
                 if len(ln) <= 80:
                     continue
                 # only words that can never fit the 40 column text area may end beyond column 80
-                for tok, end in _tokens(ln, len(prefix) if bi == 0 else 0):
-                    if end > 80 and len(tok) + 1 <= 40:
+                for tok, endcol in _tokens(ln, len(prefix) if bi == 0 else 0):
+                    if endcol > 80 and len(tok) + 1 <= 40:
                         problems.append(("width:unjustified-long-line:entry",
                                          "line of %d columns in the entry of --%s: word %r ends at column %d although "
-                                         "it fits the text area: %r" % (len(ln), name, tok, end, ln[:140])))
+                                         "it fits the text area: %r" % (len(ln), name, tok, endcol, ln[:140])))
                         break
     if i < len(rest) and any(l.strip() for l in rest[i:]):
         problems.append(("section:extra-text", "unexpected text after the last entry: %r" % rest[i:i + 3]))
